@@ -10,6 +10,7 @@ component-wise and volume sandwiches without any guessed constant.
 import contextlib
 import io
 import math
+import threading
 
 import numpy as np
 from hypothesis import strategies as st
@@ -300,6 +301,26 @@ def waterfill_recip(c, xmin, xmax, T):
     return xof(b), b
 
 
+
+def _in_thread(fn, *args):
+    """Run fn in a fresh thread: pyMOTO calls inspect.stack() for every Signal/Module it constructs, whose cost is
+    proportional to the stack depth (40 ms under Hypothesis' deep stack). Results are identical; exceptions re-raised."""
+    box = {}
+
+    def target():
+        try:
+            box["r"] = fn(*args)
+        except BaseException as e:  # re-raised in the caller below
+            box["e"] = e
+
+    t = threading.Thread(target=target)
+    t.start()
+    t.join()
+    if "e" in box:
+        raise box["e"]
+    return box.get("r")
+
+
 def check_case(case, _debug=None):
     prob = build_problem(case)
     n, k = prob["n"], len(prob["sizes"])
@@ -321,7 +342,7 @@ def check_case(case, _debug=None):
 
     log = {"x": [], "g": []}
     try:
-        run_oc(case, prob, log)
+        _in_thread(run_oc, case, prob, log)
     except Exception as e:
         import traceback
         tb = traceback.extract_tb(e.__traceback__)
